@@ -107,6 +107,33 @@ class Access:
         return "other"
 
 
+_HEFF = {}
+
+
+def _helper_effect(F, op):
+    """an access that is a call of one of the crate's own free helpers with the remembering set as argument
+    (`mark_used(&mut self.used, &matched)`): what the helper does to that parameter - `extend` when it only grows it, a read
+    when it only reads it; anything else keeps the helper's name (and is reported)"""
+    if op in GROW or op in MEMBER_READS or op in OTHER_READS:
+        return op
+    if op not in _HEFF:
+        eff = op
+        cands = [g for g in F.fns.values() if g["crate"] == "tx3_resolver" and not g.get("impl_trait") and g["def_kind"] != "Closure" and g["path"].rsplit("::", 1)[-1] == op]
+        if len(cands) == 1:
+            g = cands[0]
+            du = mir.DefUse(g)
+            ops = set()
+            for bi, t in mir.calls(g):
+                if not t["args"]:
+                    continue
+                if any(o.kind == "arg" and "HashSet<tx3_tir::model::core::UtxoRef>" in g["locals"][o.local] for o in mir.provenance(g, du, t["args"][0], transparent_extra=("std::ops::Deref::deref", "std::ops::DerefMut::deref_mut"))):
+                    ops.add((t.get("callee") or "").split("::")[-1])
+            if ops and all(o in GROW or o in MEMBER_READS or o in OTHER_READS for o in ops):
+                eff = "extend" if any(o in GROW for o in ops) else sorted(ops)[0]
+        _HEFF[op] = eff
+    return _HEFF[op]
+
+
 def accesses(F, f, fields, depth=0, owner_capt=None):
     """calls in f (and in the closures it creates, and in the selector's own helper methods it calls, two levels) whose receiver
     is one of the selector's ref-remembering fields.  `data` = the operand *in f* the written data comes from (grow only)."""
@@ -298,8 +325,13 @@ def s_ignore(F, res):
                 if p[0] == "f" and p[2] == SEL and p[1] in track:
                     touched.append((f, s["line"], "assignment", p[1]))
         for a in accesses(F, f, fields):
+            # a call of one of the crate's own helpers that was not inlined at this depth is judged where it is (in the scan
+            # of the function that calls it directly)
+            tgt = (a.term or {}).get("resolved") or (a.term or {}).get("callee") or ""
+            if tgt in F.fns and F.fns[tgt]["crate"] == "tx3_resolver" and f["blocks"][a.bb].get("inl"):
+                continue
             if a.field in track and not a.via[:1] or (a.field in track and a.via and a.via[0] == "closure"):
-                touched.append((f, a.line, a.op, a.field))
+                touched.append((f, a.line, _helper_effect(F, a.op), a.field))
     key = SEL + "|taken refs only ever grow"
     w = "crates/tx3-resolver/src/inputs/select/mod.rs"
     bad = [(f, line, c, fld) for f, line, c, fld in touched if c not in GROW and c not in MEMBER_READS and c not in OTHER_READS]
